@@ -101,4 +101,16 @@ example : (finishProfile { tiny with ballotLines := [(3, [1, 1])] }).toOption.is
 /-- the empty text is rejected with the profile error -/
 example : (parseText []).toOption.isSome = false := by decide
 
+/-! ## second tier: the ballots are stored as written
+
+`Stored` (`DroopProofs/ParseTally.lean`): for every text the reader accepts, the ballot total equals the sum of the multipliers of
+the ballot lines kept, no kept ranking is empty (ballots left empty by withdrawals are dropped), and no kept ranking names a
+withdrawn candidate. -/
+theorem parse_stored (text : List Char) (pf : Profile) (h : parseText text = .ok pf) :
+    pf.pr.nBallots = sumMult pf.pr.ballotLines + sumMult pf.pr.ballotLinesEq
+    ∧ (∀ bl ∈ pf.pr.ballotLines, bl.2 ≠ [] ∧ ∀ c ∈ bl.2, c ∉ pf.pr.withdrawn)
+    ∧ (∀ bl ∈ pf.pr.ballotLinesEq, bl.2 ≠ [] ∧ ∀ g ∈ bl.2, g ≠ [] ∧ ∀ c ∈ g, c ∉ pf.pr.withdrawn) :=
+  let s := parseText_stored h
+  ⟨s.total, s.strict, s.equal⟩
+
 end Droop.C15
